@@ -18,6 +18,37 @@ variable (num : NumDeps) (cls : Classes)
     of the rest (`parseJournalF` conses in iteration order). -/
 def pushAll (items : List Item) (j : Journal) : Journal := items.foldr (fun it j => jpush j it) j
 
+def itemsTx : List Item → List Transaction
+  | [] => []
+  | .tx t :: r => t :: itemsTx r
+  | _ :: r => itemsTx r
+def itemsDir : List Item → List Directive
+  | [] => []
+  | .dir d :: r => d :: itemsDir r
+  | _ :: r => itemsDir r
+def itemsComment : List Item → List Comment
+  | [] => []
+  | .comment c :: r => c :: itemsComment r
+  | _ :: r => itemsComment r
+def itemsIncl : List Item → List Include
+  | [] => []
+  | .incl i :: r => i :: itemsIncl r
+  | _ :: r => itemsIncl r
+
+/-- Pushing items only adds in front of each list of the journal, in order. -/
+theorem pushAll_eq (items : List Item) (j : Journal) :
+    pushAll items j = ⟨itemsTx items ++ j.transactions, itemsDir items ++ j.directives,
+      itemsComment items ++ j.comments, itemsIncl items ++ j.includes⟩ := by
+  induction items with
+  | nil => simp [pushAll, itemsTx, itemsDir, itemsComment, itemsIncl]
+  | cons it r ih =>
+    have : pushAll (it :: r) j = jpush (pushAll r j) it := rfl
+    rw [this, ih]
+    cases it <;> simp [jpush, itemsTx, itemsDir, itemsComment, itemsIncl]
+
+theorem pushAll_append (a b : List Item) (j : Journal) : pushAll (a ++ b) j = pushAll a (pushAll b j) := by
+  simp [pushAll, List.foldr_append]
+
 theorem strm_eq_cons {st : PState (List Token)} {y Y} (h : strm st = y :: Y) :
     st = ⟨Y, y, st.errors, st.defaultYear⟩ := by
   cases st; simp [strm] at h; simp [h.1, h.2]
@@ -78,12 +109,61 @@ theorem step_stream (st : PState (List Token)) (P : List Token) (e : Token) (Q :
 theorem measure_le_strm (st : PState (List Token)) : measure (listEnv num cls) st ≤ (strm st).length := by
   rw [measure_list]; split <;> simp [strm]
 
+theorem lastNL_seed {p q : Bool} {L : List Token} (h : L ≠ []) : lastNL p L = lastNL q L := by
+  cases L with
+  | nil => exact absurd rfl h
+  | cons t r => rfl
+
+/-- Where the errors raised while consuming `X ++ [nl]` may sit: on a token of `X`, or on the
+    closing Newline `nl` when `X` is non-empty and does not itself end in a Newline. -/
+def ErrZone (X : List Token) (nl : Token) (new : List ParseError) : Prop :=
+  ∀ x ∈ new, ∃ t, x.pos = t.pos ∧ (t ∈ X ∨ (t = nl ∧ lastNL true X = false))
+
+theorem ErrZone.weaken {X nl new} (h : ErrZone X nl new) : ∀ x ∈ new, ∃ t ∈ X ++ [nl], x.pos = t.pos := by
+  intro x hx
+  obtain ⟨t, hp, ht⟩ := h x hx
+  refine ⟨t, ?_, hp⟩
+  rcases ht with h | h
+  · simp [h]
+  · simp [h.1]
+
+/-- Error sites of one iteration that consumed `C` and stopped in front of the Newline `nl`. -/
+theorem okSites_before_nl {C : List Token} {nl t : Token} (hC : C ≠ []) (ht : t ∈ okSites (C ++ [nl])) :
+    t ∈ C ∨ (t = nl ∧ lastNL true C = false) := by
+  unfold okSites at ht
+  rw [okSitesAux_append] at ht
+  simp only [List.mem_append] at ht
+  rcases ht with h | h
+  · exact Or.inl (okSitesAux_sub _ _ t h)
+  · right
+    rw [lastNL_seed (p := true) (q := false) hC]
+    cases hl : lastNL false C with
+    | true => rw [hl] at h; simp [okSitesAux] at h
+    | false => rw [hl] at h; simp [okSitesAux] at h; exact ⟨h, rfl⟩
+
+/-- Error sites of one iteration that consumed `X ++ [nl]` and stopped in front of `y0`. -/
+theorem okSites_after_nl {X : List Token} {nl y0 t : Token} (h1 : nl.ty = .newline) (hX : X ≠ [])
+    (ht : t ∈ okSites (X ++ [nl] ++ [y0])) : t ∈ X ∨ (t = nl ∧ lastNL true X = false) := by
+  unfold okSites at ht
+  rw [okSitesAux_append, okSitesAux_append] at ht
+  have hl : lastNL false (X ++ [nl]) = true := by rw [lastNL_append]; simp [lastNL, h1]
+  rw [hl] at ht
+  simp only [List.mem_append] at ht
+  rcases ht with (h | h) | h
+  · exact Or.inl (okSitesAux_sub _ _ t h)
+  · right
+    rw [lastNL_seed (p := true) (q := false) hX]
+    cases hl2 : lastNL false X with
+    | true => rw [hl2] at h; simp [okSitesAux] at h
+    | false => rw [hl2] at h; simp [okSitesAux] at h; exact ⟨h, rfl⟩
+  · simp [okSitesAux] at h
+
 /-- The line-end resynchronisation theorem (see the file header). -/
 theorem sync (y0 : Token) (Y' : List Token) (nl : Token) (h1 : nl.ty = .newline)
     (hy : y0.ty ≠ .indent) (hy' : y0.ty ≠ .newline) (hE : ∃ t ∈ y0 :: Y', t.ty = .eof) :
     ∀ (k : Nat) (X : List Token) (st : PState (List Token)), X.length ≤ k → (∀ t ∈ X, t.ty ≠ .eof) →
       strm st = X ++ nl :: y0 :: Y' →
-      ∃ items new dy, (∀ x ∈ new, ∃ t ∈ X ++ [nl], x.pos = t.pos) ∧
+      ∃ items new dy, ErrZone X nl new ∧
         ∀ n m, measure (listEnv num cls) st ≤ n →
           measure (listEnv num cls) ⟨Y', y0, st.errors ++ new, dy⟩ ≤ m →
           parseJournalF (listEnv num cls) n st =
@@ -99,7 +179,7 @@ theorem sync (y0 : Token) (Y' : List Token) (nl : Token) (h1 : nl.ty = .newline)
     -- one Newline iteration
     have hc1 : st.current = nl := by simp [strm] at hs; exact hs.1
     have hsrc : st.src = y0 :: Y' := by simp [strm] at hs; exact hs.2
-    refine ⟨[.nothing], [], st.defaultYear, by simp, ?_⟩
+    refine ⟨[.nothing], [], st.defaultYear, by simp [ErrZone], ?_⟩
     intro n m hn hm
     have hne : st.current.ty ≠ .eof := by rw [hc1, h1]; simp
     have hm1 : measure (listEnv num cls) st = Y'.length + 2 := by
@@ -160,39 +240,49 @@ theorem sync (y0 : Token) (Y' : List Token) (nl : Token) (h1 : nl.ty = .newline)
     generalize hst1 : (journalStep (listEnv num cls) st).2 = st1 at *
     generalize hit : (journalStep (listEnv num cls) st).1 = item at *
     -- continue from a state whose stream is `a' ++ nl :: y0 :: Y'` with `a'` shorter than `X`
-    have hcont : ∀ a', a'.length ≤ k → (∀ t ∈ a', t.ty ≠ .eof) → (∀ t ∈ C ++ a', t ∈ X) →
+    have hcont : ∀ a', a'.length ≤ k → (∀ t ∈ a', t.ty ≠ .eof) → X = C ++ a' →
         strm st1 = a' ++ nl :: y0 :: Y' →
-        ∃ items new dy, (∀ x ∈ new, ∃ t ∈ X ++ [nl], x.pos = t.pos) ∧
+        ∃ items new dy, ErrZone X nl new ∧
           ∀ n m, measure (listEnv num cls) st ≤ n →
             measure (listEnv num cls) ⟨Y', y0, st.errors ++ new, dy⟩ ≤ m →
             parseJournalF (listEnv num cls) n st =
               (pushAll items (parseJournalF (listEnv num cls) m ⟨Y', y0, st.errors ++ new, dy⟩).1,
                (parseJournalF (listEnv num cls) m ⟨Y', y0, st.errors ++ new, dy⟩).2) := by
-      intro a' ha'len ha'X hsub hs1
+      intro a' ha'len ha'X hXa hs1
       obtain ⟨items, new2, dy, hpos2, hrun⟩ := ih a' st1 ha'len ha'X hs1
       refine ⟨item :: items, new1 ++ new2, dy, ?_, ?_⟩
       · intro x hx
         simp only [List.mem_append] at hx
         rcases hx with hx | hx
         · obtain ⟨t, ht, hp⟩ := hpos1 x hx
-          refine ⟨t, ?_, hp⟩
-          have ht' := okSitesAux_sub _ _ t ht
-          have hcur : st1.current ∈ a' ++ [nl] := by
-            cases a' with
-            | nil => simp [strm] at hs1; simp [hs1.1]
-            | cons z zs => simp [strm] at hs1; simp [hs1.1]
-          simp only [List.mem_append, List.mem_singleton] at ht' hcur ⊢
-          rcases ht' with h | h
-          · exact Or.inl (hsub t (by simp [h]))
-          · rw [h]; rcases hcur with h' | h'
-            · exact Or.inl (hsub _ (by simp [h']))
-            · exact Or.inr h'
-        · obtain ⟨t, ht, hp⟩ := hpos2 x hx
-          refine ⟨t, ?_, hp⟩
-          simp only [List.mem_append, List.mem_singleton] at ht ⊢
+          refine ⟨t, hp, ?_⟩
+          cases a' with
+          | nil =>
+            have hcur : st1.current = nl := by simp [strm] at hs1; exact hs1.1
+            rw [hcur] at ht
+            have hXC : X = C := by simpa using hXa
+            rw [hXC]
+            exact okSites_before_nl hCne ht
+          | cons z zs =>
+            have hcur : st1.current = z := by simp [strm] at hs1; exact hs1.1
+            rw [hcur] at ht
+            have := okSitesAux_sub _ _ t ht
+            left
+            rw [hXa]
+            simp only [List.mem_append, List.mem_singleton] at this
+            rcases this with h | h
+            · simp [h]
+            · simp [h]
+        · obtain ⟨t, hp, ht⟩ := hpos2 x hx
+          refine ⟨t, hp, ?_⟩
           rcases ht with h | h
-          · exact Or.inl (hsub t (by simp [h]))
-          · exact Or.inr h
+          · left; rw [hXa]; simp [h]
+          · right
+            refine ⟨h.1, ?_⟩
+            have hne' : a' ≠ [] := by
+              intro h0; rw [h0] at h; simp [lastNL] at h
+            rw [hXa, lastNL_append, lastNL_seed (q := true) hne']
+            exact h.2
       · intro n m hn hm
         obtain ⟨n1, rfl, hun⟩ := hstep n hn
         rw [hun]
@@ -208,7 +298,7 @@ theorem sync (y0 : Token) (Y' : List Token) (nl : Token) (h1 : nl.ty = .newline)
       | [], hrest =>
         have hP'' : P' = nl :: Y1 := by simpa using hrest.symm
         have hs1 : strm st1 = [] ++ nl :: y0 :: Y' := by rw [hstrm1, hP'', hY]; simp
-        exact hcont [] (by simp) (by simp) (by intro t ht; rw [hCX] at ht; simpa using ht) hs1
+        exact hcont [] (by simp) (by simp) (by simpa using hCX.symm) hs1
       | [t1], hrest =>
         -- consumed X ++ [nl]: the loop is at its head in front of y0
         have ht : t1 = nl ∧ P' = Y1 := by simp at hrest; exact ⟨hrest.1.symm, hrest.2.symm⟩
@@ -216,16 +306,10 @@ theorem sync (y0 : Token) (Y' : List Token) (nl : Token) (h1 : nl.ty = .newline)
         refine ⟨[item], new1, st1.defaultYear, ?_, ?_⟩
         · intro x hx
           obtain ⟨t, htm, hp⟩ := hpos1 x hx
-          refine ⟨t, ?_, hp⟩
+          refine ⟨t, hp, ?_⟩
           have hcur : st1.current = y0 := by simp [strm] at hs1; exact hs1.1
           rw [hCX, ht.1, hcur] at htm
-          unfold okSites at htm
-          rw [okSitesAux_append] at htm
-          have hl : lastNL false (X ++ [nl]) = true := by
-            rw [lastNL_append]; simp [lastNL, h1]
-          rw [hl] at htm
-          simp only [okSitesAux, if_true, List.append_nil] at htm
-          exact okSitesAux_sub _ _ t htm
+          exact okSites_after_nl h1 hXne htm
         · intro n m hn hm
           obtain ⟨n1, rfl, hun⟩ := hstep n hn
           rw [hun]
@@ -256,7 +340,6 @@ theorem sync (y0 : Token) (Y' : List Token) (nl : Token) (h1 : nl.ty = .newline)
         have : X.length = C.length + a'.length := by rw [hXa]; simp
         have : 0 < C.length := List.length_pos_iff.2 hCne
         omega
-      exact hcont a' ha'len (fun t ht => hX t (by rw [hXa]; simp [ht]))
-        (by intro t ht; rw [hXa]; exact ht) hs1
+      exact hcont a' ha'len (fun t ht => hX t (by rw [hXa]; simp [ht])) hXa hs1
 
 end HL.Parser
